@@ -998,3 +998,813 @@ Section Bridge.
       - destruct kv as [|[k0 v0] [|p0 t0]]; reflexivity.
     Qed.
   End Apply.
+
+  (* ---------------------------------------------------------------- create_serializer: the model, rearranged *)
+
+  (* the part of check_field that is _verify_is_fast_serializable ... *)
+  Fixpoint verify_model (cs : pystr -> res unit) (tf : tfield) : res unit :=
+    match tf with
+    | TArray i => verify_model cs i
+    | TRef c => cs c
+    | _ => Ok tt
+    end.
+  (* ... and the part that is the two tests of _get_serialize *)
+  Definition tail_model (tf : tfield) : res unit :=
+    match tf with
+    | TUnion ls => if (1 <? Z.of_nat (length (non_none ls))) then Raise TypeError else Ok tt
+    | TOther _ oneof => if oneof then Raise TypeError else Ok tt
+    | _ => Ok tt
+    end.
+
+  Lemma verify_model_array cs i :
+    match i with TRef _ | TArray _ => check_field cs i | _ => Ok tt end = verify_model cs i ->
+    check_field cs (TArray i) = verify_model cs (TArray i).
+  Proof. intro H. exact H. Qed.
+
+  Lemma check_field_array cs : forall tf, check_field cs (TArray tf) = verify_model cs tf.
+  Proof.
+    induction tf as [l|i IH|i IH|c|nf f IH|ls|id o]; try reflexivity. exact IH.
+  Qed.
+
+  Lemma check_field_split cs tf : check_field cs tf = (_ <- verify_model cs tf ;; tail_model tf).
+  Proof.
+    destruct tf as [l|i|i|c|nf f|ls|id o]; try reflexivity.
+    - rewrite check_field_array. cbn [verify_model tail_model]. destruct (verify_model cs i) as [[]|x]; reflexivity.
+    - cbn [check_field verify_model tail_model]. destruct (cs c) as [[]|x]; reflexivity.
+  Qed.
+
+  (* what create_serializer does with a class a field refers to *)
+  Definition cs_model (n : nat) : pystr -> res unit :=
+    fun c' => match find_tclass e c' with
+              | Some cd => if t_fast cd then create_serializer e n c' else Raise TypeError
+              | None => Raise Unmodelled
+              end.
+
+  Lemma create_S n cn :
+    create_serializer e (S n) cn =
+    match find_tclass e cn with
+    | None => Raise Unmodelled
+    | Some c => check_fields (cs_model n) (t_mapper c) (t_fields c)
+    end.
+  Proof. reflexivity. Qed.
+
+  (* more fuel does not change a success *)
+  Definition ok_or_oof (r : res unit) : Prop := r = Ok tt \/ r = Raise OutOfFuel.
+
+  Lemma verify_mono cs1 cs2 :
+    (forall c, cs1 c = Ok tt -> ok_or_oof (cs2 c)) ->
+    forall tf, verify_model cs1 tf = Ok tt -> ok_or_oof (verify_model cs2 tf).
+  Proof.
+    intros H. induction tf as [l|i IH|i IH|c|nf f IH|ls|id o]; cbn [verify_model]; intro E;
+      try (left; reflexivity); auto.
+  Qed.
+
+  Lemma check_fields_mono cs1 cs2 m :
+    (forall c, cs1 c = Ok tt -> ok_or_oof (cs2 c)) ->
+    forall fs, check_fields cs1 m fs = Ok tt -> ok_or_oof (check_fields cs2 m fs).
+  Proof.
+    intros H. induction fs as [|fd t IH]; intro E; [left; reflexivity|].
+    cbn [check_fields] in E |- *.
+    destruct (mapped_as_str m (f_name fd)) as [[]|x]; [|discriminate E]. cbn [bind] in E |- *.
+    assert (Hty : forall cs, (match f_ty fd with
+                              | TLeaf (LPrim FNone) => check_field cs (f_ty fd)
+                              | TLeaf (LPrim _) | TLeaf (LSer _ true) => Ok tt
+                              | tf => check_field cs tf
+                              end) = match getter_of (f_ty fd) with GRaw => Ok tt | GSer => check_field cs (f_ty fd) end).
+    { intro cs. destruct (f_ty fd) as [[f|cls ms byv|vals|id [|]]|i|i|c|nf f|ls|id o]; try reflexivity.
+      destruct f; reflexivity. }
+    rewrite Hty in E |- *.
+    destruct (getter_of (f_ty fd)).
+    - cbn [bind] in E |- *. exact (IH E).
+    - rewrite check_field_split in E |- *.
+      destruct (verify_model cs1 (f_ty fd)) as [[]|x] eqn:E1; [|discriminate E]. cbn [bind] in E.
+      destruct (verify_mono cs1 cs2 H _ E1) as [E2|E2]; rewrite E2; cbn [bind]; [|right; reflexivity].
+      destruct (tail_model (f_ty fd)) as [[]|x]; [|discriminate E]. cbn [bind] in E |- *. exact (IH E).
+  Qed.
+
+  Lemma create_mono : forall k cn, create_serializer e k cn = Ok tt -> forall n, ok_or_oof (create_serializer e n cn).
+  Proof.
+    induction k as [|k IH]; intros cn E n; [discriminate E|].
+    destruct n as [|n]; [right; reflexivity|].
+    rewrite create_S in E |- *. destruct (find_tclass e cn) as [c|]; [|discriminate E].
+    apply (check_fields_mono (cs_model k) (cs_model n)); [|exact E].
+    intros c' E'. unfold cs_model in E' |- *. destruct (find_tclass e c') as [cd|]; [|discriminate E'].
+    destruct (t_fast cd); [|discriminate E']. exact (IH c' E' n).
+  Qed.
+
+  (* ---------------------------------------------------------------- create_serializer: heaps on the way *)
+
+  (* a serializer is either not yet created, or the one create_serializer(cls) (default flags) installs -- and then
+     the model's create_serializer succeeds on the class *)
+  Definition heap_inv (h : heap) : Prop :=
+    heap_base h /\
+    forall cn c, find_tclass e cn = Some c ->
+      h cn a_serialize = None \/
+      (h cn a_serialize = Some (serc cn c (PBool false)) /\ t_fast c = true /\
+       exists k, create_serializer e k cn = Ok tt).
+
+  (* the generated function (a heap and None, or an exception) against the model (unit, or an exception) *)
+  Definition agrees (r : res unit) (s : res (heap * pyval)) : Prop :=
+    match r with
+    | Ok _ => exists h1, heap_inv h1 /\ s = Ok (h1, PNone)
+    | Raise x => s = Raise x
+    end.
+
+  Section Create.
+    Hypothesis Henv : env_ok = true.
+    Variable n : nat.
+    Variable rec : heap -> pyval -> pyval -> pyval -> pyval -> res (heap * pyval).
+    Variable call : callfn.
+
+    (* the recursive call, on a FastSerializable class whose serializer is not yet created *)
+    Hypothesis Hrec : forall h0 c' cd,
+        heap_inv h0 -> find_tclass e c' = Some cd -> t_fast cd = true -> h0 c' a_serialize = None ->
+        create_serializer e n c' <> Raise Unmodelled -> create_serializer e n c' <> Raise OutOfFuel ->
+        agrees (create_serializer e n c') (rec h0 (ref c') (PBool false) (PBool false) PNone).
+
+    Notation verify := (src_verify_is_fast_serializable rec).
+
+    Lemma quiet_verify : forall m o d h,
+        quiet m o = true -> (m <= d)%nat -> verify d call xt h o = Ok (h, PNone).
+    Proof.
+      induction m as [|m IH]; intros o d h Hq Hd; [discriminate Hq|].
+      destruct d as [|d]; [lia|]. cbn [quiet] in Hq.
+      destruct o as [| | | | | | | | | |c attrs|]; try discriminate Hq.
+      apply andb_true_iff in Hq as [Hq Hit]. apply andb_true_iff in Hq as [Hq Hcr].
+      apply andb_true_iff in Hq as [Hp Hk]. apply negb_true_iff in Hp, Hcr.
+      cbn [src_verify_is_fast_serializable]. rewrite !fsinst_struct, Hp, Hk, Hcr. cbn [bind].
+      destruct (class_in ftbl c [s2p "Array"]) eqn:HA; cbn [py_and bind]; [|reflexivity].
+      cbn [fs_getattr]. destruct (alist_get attrs (s2p "items")) as [it|]; [|discriminate Hit]. cbn [bind].
+      change [s2p "Field"; s2p "ClassReference"] with k_fieldish.
+      destruct (fs_isinstance ftbl it k_fieldish) as [[|]|x]; try discriminate Hit; cbn [bind]; [|reflexivity].
+      rewrite (IH it d h Hit); [reflexivity|lia].
+    Qed.
+  
+    (* the field objects on which _verify_is_fast_serializable is within its depth fuel [d] *)
+    Fixpoint tf_fits (d : nat) (tf : tfield) {struct tf} : bool :=
+      match tf with
+      | TArray i => match d with O => false | S m => tf_fits m i end
+      | TOther id b => other_ok_fast b (other_obj id b) && quiet d (other_obj id b)
+      | TLeaf l => leaf_wf l && negb (Nat.eqb d 0)
+      | TUnion ls => forallb leaf_wf ls && negb (Nat.eqb d 0)
+      | TOpt _ f => shallow_wf f && negb (Nat.eqb d 0)
+      | _ => negb (Nat.eqb d 0)
+      end.
+
+    Definition extra_ok (extra : list (pystr * pyval)) : Prop :=
+      alist_get extra (s2p "items") = None /\ alist_get extra (s2p "_ty") = None.
+
+    Lemma quiet_with_attrs extra : extra_ok extra -> forall m o, quiet m o = true -> quiet m (with_attrs o extra) = true.
+    Proof.
+      intros [Hi _] m o. destruct m as [|m]; [discriminate|]. destruct o as [| | | | | | | | | |c attrs|]; try discriminate.
+      cbn [quiet with_attrs]. rewrite alist_get_app, Hi. intro H. exact H.
+    Qed.
+
+    Lemma quiet_S m o : quiet m o = true -> quiet (S m) o = true.
+    Proof.
+      revert o. induction m as [|m IH]; intros o H; [discriminate H|].
+      destruct o as [| | | | | | | | | |c attrs|]; try discriminate H.
+      cbn [quiet] in H. remember (S m) as m1. cbn [quiet]. subst m1.
+      destruct (negb (str_prefix fn_prefix c) && class_known ftbl c && negb (class_in ftbl c [s2p "ClassReference"]));
+        [|discriminate H]. cbn [andb] in H |- *.
+      destruct (class_in ftbl c [s2p "Array"]); [|reflexivity].
+      destruct (alist_get attrs (s2p "items")) as [it|]; [|discriminate H].
+      destruct (fs_isinstance ftbl it k_fieldish) as [[|]|x]; try discriminate H; [|reflexivity].
+      exact (IH it H).
+    Qed.
+
+    Lemma quiet_le m d o : quiet m o = true -> (m <= d)%nat -> quiet d o = true.
+    Proof. intros H Hle. induction Hle; [exact H|]. apply quiet_S. assumption. Qed.
+
+    (* leaves, sets and unions: nothing to verify *)
+    Lemma tf_quiet tf :
+      match tf with TArray _ | TRef _ | TOther _ _ => False | _ => True end ->
+      shallow_wf tf = true -> quiet 1 (tfpy tf) = true.
+    Proof.
+      destruct tf as [l|i|i|c|nf f|ls|id o]; try contradiction; intros _ Hw; cbn [shallow_wf] in Hw; cbn [ftf_py quiet].
+      - destruct (leaf_facts_fast l Hw) as (H1 & H2 & _ & _ & H5 & H6 & _). unfold leaf_py. rewrite H1, H2, H5, H6. reflexivity.
+      - vm_compute. reflexivity.
+      - unfold anyof_py. vm_compute. reflexivity.
+      - unfold anyof_py. vm_compute. reflexivity.
+    Qed.
+
+    Lemma fits_shallow d tf : tf_fits d tf = true -> shallow_wf tf = true.
+    Proof.
+      destruct tf as [l|i|i|c|nf f|ls|id o]; cbn [tf_fits shallow_wf]; intro H; try reflexivity.
+      - apply andb_true_iff in H as [H _]. exact H.
+      - apply andb_true_iff in H as [H _]. exact H.
+      - apply andb_true_iff in H as [H _]. exact H.
+    Qed.
+
+    Lemma fits_pos d tf : tf_fits d tf = true -> (1 <= d)%nat.
+    Proof.
+      destruct tf as [l|i|i|c|nf f|ls|id o]; cbn [tf_fits]; intro H;
+        try (try (apply andb_true_iff in H as [_ H]); apply negb_true_iff in H; apply Nat.eqb_neq in H; lia).
+      - destruct d; [discriminate H|lia].
+      - apply andb_true_iff in H as [_ H]. destruct d; [discriminate H|lia].
+    Qed.
+
+    (* attribute lookups on a class of the environment that no store of the file touches *)
+    Lemma lookup_plain h cn c a0 :
+      heap_base h -> find_tclass e cn = Some c ->
+      pystr_eqb a0 a_serialize = false -> pystr_eqb a0 a_created = false ->
+      pystr_eqb a0 (s2p "_additional_serialization") = false ->
+      cls_mro h cn = [cn; ST] ++ (if t_fast c then [FS] else []) /\ cls_lookup h cn a0 = heap0 cn a0.
+    Proof.
+      intros [Hb1 Hb2] Hf H1 H2 H3.
+      assert (Hm : cls_mro h cn = [cn; ST] ++ (if t_fast c then [FS] else [])).
+      { unfold cls_mro. rewrite (Hb1 cn mro_attr eq_refl eq_refl), (heap0_env Henv cn c mro_attr Hf).
+        change (pystr_eqb mro_attr a_fields) with false. rewrite pystr_eqb_refl. unfold mro_py.
+        destruct (t_fast c); reflexivity. }
+      split; [exact Hm|]. unfold cls_lookup. rewrite Hm. cbn [app mro_find]. rewrite (Hb1 cn a0 H1 H2).
+      destruct (heap0 cn a0) eqn:E; [reflexivity|].
+      rewrite (Hb1 ST a0 H1 H2).
+      assert (E2 : heap0 ST a0 = None) by (unfold fast_heap0; change (pystr_eqb ST FS) with false; rewrite pystr_eqb_refl, H3; reflexivity).
+      rewrite E2. destruct (t_fast c); [|reflexivity]. cbn [mro_find].
+      rewrite (Hb1 FS a0 H1 H2). unfold fast_heap0. rewrite pystr_eqb_refl, H1. reflexivity.
+    Qed.
+
+    (* getattr(C, "serialize", None) for a class of the environment *)
+    Lemma lookup_serialize h cn c :
+      heap_base h -> find_tclass e cn = Some c ->
+      cls_lookup h cn a_serialize =
+      match h cn a_serialize with
+      | Some v => Some v
+      | None => if t_fast c then Some fs_serialize_fn else None
+      end.
+    Proof.
+      intros Hb Hf. destruct (lookup_plain h cn c mro_attr Hb Hf eq_refl eq_refl eq_refl) as [Hm _].
+      assert (Hn : env_names_ok = true) by (unfold env_ok in Henv; apply andb_true_iff in Henv as [Hn _]; exact Hn).
+      unfold cls_lookup. rewrite Hm. destruct (t_fast c); cbn [app mro_find]; destruct (h cn a_serialize); try reflexivity;
+        rewrite (proj2 Hb ST a_serialize (names_ok_find ST Hn (or_introl eq_refl))).
+      - change (heap0 ST a_serialize) with (@None pyval).
+        rewrite (proj2 Hb FS a_serialize (names_ok_find FS Hn (or_intror eq_refl))). reflexivity.
+      - reflexivity.
+    Qed.
+  
+    Lemma names_ok : env_names_ok = true.
+    Proof. unfold env_ok in Henv. apply andb_true_iff in Henv as [Hn _]. exact Hn. Qed.
+
+    Lemma issub_env h c' cd :
+      heap_base h -> find_tclass e c' = Some cd -> fs_issubclass h (ref c') (ref FS) = Ok (t_fast cd).
+    Proof.
+      intros Hb Hf. destruct (lookup_plain h c' cd mro_attr Hb Hf eq_refl eq_refl eq_refl) as [Hm _].
+      unfold fs_issubclass, ref, ref_name. rewrite pystr_eqb_refl, Hm.
+      destruct (env_cls_not_special Henv c' cd Hf) as [H1 _].
+      unfold str_in. cbn [app existsb]. rewrite (pystr_eqb_sym FS c'), H1. change (pystr_eqb FS ST) with false.
+      destruct (t_fast cd); cbn [existsb orb]; [rewrite pystr_eqb_refl|]; reflexivity.
+    Qed.
+
+    Lemma getser_env h c' cd :
+      heap_base h -> find_tclass e c' = Some cd ->
+      fs_getattr_def h (ref c') a_serialize PNone =
+      Ok (match h c' a_serialize with
+          | Some v => v
+          | None => if t_fast cd then fs_serialize_fn else PNone
+          end).
+    Proof.
+      intros Hb Hf. unfold fs_getattr_def, ref. rewrite pystr_eqb_refl, (lookup_serialize h c' cd Hb Hf).
+      destruct (h c' a_serialize); [reflexivity|]. destruct (t_fast cd); reflexivity.
+    Qed.
+
+    Lemma fs_ser h : heap_base h -> fs_getattr h (ref FS) a_serialize = Ok fs_serialize_fn.
+    Proof.
+      intros [_ Hb]. pose proof (names_ok_find FS names_ok (or_intror eq_refl)) as Hf.
+      unfold fs_getattr, ref. rewrite pystr_eqb_refl. unfold cls_lookup, cls_mro.
+      rewrite (Hb FS mro_attr Hf). change (heap0 FS mro_attr) with (@None pyval). cbn [mro_find].
+      rewrite (Hb FS a_serialize Hf). reflexivity.
+    Qed.
+
+    Lemma failed_env h c' cd :
+      heap_base h -> find_tclass e c' = Some cd ->
+      fs_getattr_def h (ref c') (s2p "_failed_serializer_creation") (PBool false) = Ok (PBool false).
+    Proof.
+      intros Hb Hf. unfold fs_getattr_def, ref. rewrite pystr_eqb_refl.
+      rewrite (proj2 (lookup_plain h c' cd (s2p "_failed_serializer_creation") Hb Hf eq_refl eq_refl eq_refl)),
+        (heap0_env Henv c' cd _ Hf). reflexivity.
+    Qed.
+
+    Lemma is_installed_not_fs cn c sn : py_is_obj (serc cn c sn) fs_serialize_fn = Ok false.
+    Proof. reflexivity. Qed.
+
+    Lemma verify_ref d h extra c' :
+      heap_inv h -> extra_ok extra -> (1 <= d)%nat ->
+      cs_model n c' <> Raise Unmodelled -> cs_model n c' <> Raise OutOfFuel ->
+      agrees (cs_model n c') (verify d call xt h (with_attrs (tfpy (TRef c')) extra)).
+    Proof.
+      intros Hi [_ Hty] Hd Hu Ho. destruct d as [|d]; [lia|].
+      unfold cs_model in *. destruct (find_tclass e c') as [cd|] eqn:Hf; [|contradiction Hu; reflexivity].
+      pose proof (proj1 Hi) as Hb.
+      cbn [ftf_py with_attrs]. cbn [src_verify_is_fast_serializable].
+      rewrite !fsinst_struct. str_eval. eval_fcls. cbn [bind].
+      cbn [fs_getattr]. rewrite alist_get_app, Hty. cbn [alist_get]. str_eval. cbn iota. cbn [bind py_and].
+      change (s2p "FastSerializable") with FS. change (s2p "serialize") with a_serialize.
+      rewrite (issub_env h c' cd Hb Hf). cbn [py_not bind].
+      destruct (t_fast cd) eqn:Hfast; cbn [negb]; [|reflexivity]. rewrite (getser_env h c' cd Hb Hf), Hfast, (fs_ser h Hb). cbn [bind].
+      destruct (proj2 Hi c' cd Hf) as [Hnone|(Hsome & _ & k & Hk)].
+      - rewrite Hnone. change (py_is_obj fs_serialize_fn fs_serialize_fn) with (@Ok bool true). cbn [bind].
+        rewrite (failed_env h c' cd Hb Hf). cbn [bind py_truthy py_not negb].
+        pose proof (Hrec h c' cd Hi Hf Hfast Hnone Hu Ho) as Hr. unfold agrees in *.
+        destruct (create_serializer e n c') as [u|x].
+        + destruct Hr as (h1 & Hi1 & Hr). rewrite Hr. cbn [bind]. exists h1. split; [exact Hi1|reflexivity].
+        + rewrite Hr. reflexivity.
+      - rewrite Hsome, is_installed_not_fs. cbn [bind].
+        destruct (create_mono k c' Hk n) as [E|E]; rewrite E in Ho |- *; [|contradiction Ho; reflexivity].
+        exists h. split; [exact Hi|reflexivity].
+    Qed.
+  
+    Lemma agrees_same h s : heap_inv h -> s = Ok (h, PNone) -> agrees (Ok tt) s.
+    Proof. intros Hi E. exists h. split; assumption. Qed.
+
+    Lemma verify_eq : forall tf d h extra,
+        heap_inv h -> extra_ok extra -> tf_fits d tf = true ->
+        verify_model (cs_model n) tf <> Raise Unmodelled -> verify_model (cs_model n) tf <> Raise OutOfFuel ->
+        agrees (verify_model (cs_model n) tf) (verify d call xt h (with_attrs (tfpy tf) extra)).
+    Proof.
+      induction tf as [l|i IH|i IH|c|nf f IH|ls|id o]; intros d h extra Hi Hx Hfit Hu Ho.
+      - apply (agrees_same h _ Hi). apply quiet_verify with (m := d); [|lia].
+        apply quiet_with_attrs; [exact Hx|]. apply quiet_le with (m := 1%nat); [|exact (fits_pos _ _ Hfit)].
+        apply tf_quiet; [exact I|exact (fits_shallow _ _ Hfit)].
+      - (* Array: the items are verified first *)
+        cbn [tf_fits] in Hfit. destruct d as [|d]; [discriminate Hfit|]. cbn [verify_model] in Hu, Ho |- *.
+        destruct (obj_struct i (fits_shallow _ _ Hfit)) as (c0 & attrs & E & Hk & Hp & _ & _).
+        cbn [ftf_py with_attrs]. cbn [src_verify_is_fast_serializable].
+        rewrite !fsinst_struct. str_eval. eval_fcls. cbn [bind py_and].
+        cbn [fs_getattr]. rewrite alist_get_app, (proj1 Hx). cbn [alist_get]. str_eval. cbn iota. cbn [bind].
+        rewrite E, fsinst_struct, Hp, Hk. cbn [bind].
+        destruct (class_in ftbl c0 [s2p "Field"; s2p "ClassReference"]) eqn:Hfl.
+        + specialize (IH d h [] Hi (conj eq_refl eq_refl) Hfit Hu Ho). rewrite E in IH. cbn [with_attrs app] in IH.
+          unfold agrees in *. destruct (verify_model (cs_model n) i) as [u|x].
+          * destruct IH as (h1 & Hi1 & IH). rewrite IH. cbn [bind]. exists h1. split; [exact Hi1|reflexivity].
+          * rewrite IH. reflexivity.
+        + assert (Hq : verify_model (cs_model n) i = Ok tt).
+          { destruct i as [l|i2|i2|c|nf f|ls|id o]; try reflexivity; cbn [ftf_py] in E; inversion E; subst;
+              vm_compute in Hfl; discriminate Hfl. }
+          rewrite Hq. exists h. split; [exact Hi|reflexivity].
+      - apply (agrees_same h _ Hi). apply quiet_verify with (m := d); [|lia].
+        apply quiet_with_attrs; [exact Hx|]. apply quiet_le with (m := 1%nat); [|exact (fits_pos _ _ Hfit)].
+        apply tf_quiet; [exact I|exact (fits_shallow _ _ Hfit)].
+      - cbn [verify_model] in *. exact (verify_ref d h extra c Hi Hx (fits_pos _ _ Hfit) Hu Ho).
+      - apply (agrees_same h _ Hi). apply quiet_verify with (m := d); [|lia].
+        apply quiet_with_attrs; [exact Hx|]. apply quiet_le with (m := 1%nat); [|exact (fits_pos _ _ Hfit)].
+        apply tf_quiet; [exact I|exact (fits_shallow _ _ Hfit)].
+      - apply (agrees_same h _ Hi). apply quiet_verify with (m := d); [|lia].
+        apply quiet_with_attrs; [exact Hx|]. apply quiet_le with (m := 1%nat); [|exact (fits_pos _ _ Hfit)].
+        apply tf_quiet; [exact I|exact (fits_shallow _ _ Hfit)].
+      - apply (agrees_same h _ Hi). apply quiet_verify with (m := d); [|lia].
+        apply quiet_with_attrs; [exact Hx|]. cbn [tf_fits] in Hfit. apply andb_true_iff in Hfit as [_ Hq]. exact Hq.
+    Qed.
+  
+    (* ---------------------------------------------------------------- _get_serialize *)
+
+    Definition agrees_v (r : res unit) (s : res (heap * pyval)) (v : pyval) : Prop :=
+      match r with
+      | Ok _ => exists h1, heap_inv h1 /\ s = Ok (h1, v)
+      | Raise x => s = Raise x
+      end.
+
+    Lemma non_null_leaves (F : pyval -> res (option pyval)) :
+      (forall v, F v = (c <- py_not (fs_isinstance ftbl v [s2p "NoneField"]) ;; if c then Ok (Some v) else Ok None)) ->
+      forall ls, forallb leaf_wf ls = true -> filterM F (map leaf_py ls) = Ok (map leaf_py (non_none ls)).
+    Proof.
+      intro HF. induction ls as [|l t IH]; intro Hw; [reflexivity|].
+      cbn [forallb] in Hw. apply andb_true_iff in Hw as [Hl Ht].
+      cbn [map filterM]. rewrite HF, (IH Ht). unfold leaf_py at 1. rewrite fsinst_struct.
+      destruct (leaf_facts_fast l Hl) as (H1 & H2 & _ & _ & _ & _ & _ & _ & H9). rewrite H1, H2, H9.
+      unfold non_none. cbn [filter py_not bind]. destruct (is_none_leaf l); reflexivity.
+    Qed.
+
+    Lemma gt1 {A} (l : list A) : py_gt (PNum (NInt (lenZ' l))) (zint 1) = Ok (1 <? Z.of_nat (length l)).
+    Proof. unfold py_gt, py_lt, zint. cbn [as_num]. rewrite num_ltb_int. reflexivity. Qed.
+
+    Lemma get_serialize_eq cn fd d h :
+      heap_inv h -> tf_fits d (f_ty fd) = true -> getter_of (f_ty fd) = GSer ->
+      check_field (cs_model n) (f_ty fd) <> Raise Unmodelled -> check_field (cs_model n) (f_ty fd) <> Raise OutOfFuel ->
+      agrees_v (check_field (cs_model n) (f_ty fd)) (src_get_serialize rec d call xt h (fdpy cn fd) (ref cn)) (getter cn fd).
+    Proof.
+      intros Hi Hfit Hg Hu Ho. rewrite check_field_split in Hu, Ho |- *.
+      assert (Hu1 : verify_model (cs_model n) (f_ty fd) <> Raise Unmodelled).
+      { intro E. apply Hu. rewrite E. reflexivity. }
+      assert (Ho1 : verify_model (cs_model n) (f_ty fd) <> Raise OutOfFuel).
+      { intro E. apply Ho. rewrite E. reflexivity. }
+      pose proof (verify_eq (f_ty fd) d h (fd_extra cn fd) Hi (conj eq_refl eq_refl) Hfit Hu1 Ho1) as Hv.
+      unfold src_get_serialize. fold (fd_py other_obj cn fd) in Hv. unfold agrees in Hv. unfold agrees_v.
+      destruct (verify_model (cs_model n) (f_ty fd)) as [[]|x]; cbn [bind] in Hu, Ho |- *; [|rewrite Hv; reflexivity].
+      destruct Hv as (h1 & Hi1 & Hv). rewrite Hv. cbn [bind].
+      unfold getter_py, obj_py. rewrite Hg. unfold fd_py.
+      destruct (f_ty fd) as [l|i|i|c'|nf f|ls|id ob] eqn:Hty; cbn [tail_model ftf_py with_attrs].
+      - (* a leaf that is not a Number / String / Boolean *)
+        cbn [tf_fits] in Hfit. apply andb_true_iff in Hfit as [Hl _].
+        destruct (leaf_facts_fast l Hl) as (H1 & H2 & _ & _ & H5 & _ & H7 & H8 & _).
+        unfold leaf_py. cbn [with_attrs]. rewrite !fsinst_struct, H1, H2, H5. cbn [bind]. rewrite !fsinst_struct, H1, H2, H7, H8.
+        cbn [bind]. exists h1. split; [exact Hi1|reflexivity].
+      - rewrite !fsinst_struct. str_eval. eval_fcls. cbn [bind]. rewrite !fsinst_struct. str_eval. eval_fcls. cbn [bind].
+        exists h1. split; [exact Hi1|reflexivity].
+      - rewrite !fsinst_struct. str_eval. eval_fcls. cbn [bind]. rewrite !fsinst_struct. str_eval. eval_fcls. cbn [bind].
+        exists h1. split; [exact Hi1|reflexivity].
+      - (* a class reference: the class is the receiver of serialize *)
+        rewrite !fsinst_struct. str_eval. eval_fcls. cbn [bind].
+        cbn [fs_getattr]. unfold fd_extra. cbn [app alist_get]. unfold a_name, a_owner. str_eval. cbn iota. cbn [bind].
+        rewrite !fsinst_ref. cbn [bind]. exists h1. split; [exact Hi1|reflexivity].
+      - (* Optional: at most one option is not None *)
+        cbn [tf_fits] in Hfit. apply andb_true_iff in Hfit as [Hf _].
+        destruct (obj_struct f Hf) as (c0 & attrs & E & Hk & Hp & _ & _).
+        unfold anyof_py. cbn [with_attrs]. rewrite !fsinst_struct. str_eval. eval_fcls. cbn [bind].
+        rewrite !fsinst_struct. str_eval. eval_fcls. cbn [bind].
+        cbn [fs_getattr]. unfold fd_extra. cbn [app alist_get]. unfold a_name, a_owner. str_eval. cbn iota. cbn [bind py_iter].
+        unfold none_py, leaf_py. cbn [leaf_cls prim_cls leaf_attrs]. rewrite E.
+        destruct nf; cbn [filterM]; rewrite !fsinst_struct, Hp, Hk; str_eval; eval_fcls; cbn [py_not bind negb];
+          destruct (class_in ftbl c0 [s2p "NoneField"]); cbn [negb bind py_len]; rewrite gt1; cbn [length Z.of_nat Z.ltb Z.compare Pos.compare Pos.of_succ_nat bind];
+          (exists h1; split; [exact Hi1|reflexivity]).
+      - (* a union of leaves *)
+        cbn [tf_fits] in Hfit. apply andb_true_iff in Hfit as [Hls _].
+        unfold anyof_py. cbn [with_attrs]. rewrite !fsinst_struct. str_eval. eval_fcls. cbn [bind].
+        rewrite !fsinst_struct. str_eval. eval_fcls. cbn [bind].
+        cbn [fs_getattr]. unfold fd_extra. cbn [app alist_get]. unfold a_name, a_owner. str_eval. cbn iota. cbn [bind py_iter].
+        rewrite (non_null_leaves _ (fun _ => eq_refl) ls Hls). cbn [bind py_len]. rewrite gt1, map_length. cbn [bind].
+        destruct (1 <? Z.of_nat (length (non_none ls))); [reflexivity|].
+        exists h1. split; [exact Hi1|reflexivity].
+      - (* an unmodelled field: OneOf is refused *)
+        cbn [tf_fits] in Hfit. apply andb_true_iff in Hfit as [Hok _].
+        destruct (other_ok_split _ _ Hok) as (c0 & attrs & E & Hk & Hp & _ & _ & H5 & H6 & H7 & _).
+        rewrite E. cbn [with_attrs]. rewrite !fsinst_struct, Hp, Hk, H5. cbn [bind]. rewrite !fsinst_struct, Hp, Hk, H6.
+        cbn [bind]. destruct ob; [reflexivity|]. rewrite H7. cbn [bind]. exists h1. split; [exact Hi1|reflexivity].
+    Qed.
+  
+    (* ---------------------------------------------------------------- the loop over the fields *)
+
+    Lemma agg_lookup (F : pystr -> pyval) : forall fs k,
+        str_in k (map f_name fs) = true ->
+        dict_get (map (fun fd => (PStr (f_name fd), F (f_name fd))) fs) (PStr k) = Some (F k).
+    Proof.
+      induction fs as [|fd t IH]; intros k H; [discriminate H|].
+      unfold str_in in H. cbn [map existsb] in H. cbn [map dict_get py_eq].
+      destruct (pystr_eqb (f_name fd) k) eqn:E.
+      - apply pystr_eqb_spec in E. subst. reflexivity.
+      - rewrite pystr_eqb_sym, E in H. cbn [orb] in H. exact (IH k H).
+    Qed.
+
+    (* isinstance(field, (Number, String, Boolean)) on the object of a declared field *)
+    Lemma raw_test cn fd :
+      shallow_wf (f_ty fd) = true ->
+      fs_isinstance ftbl (fdpy cn fd) k_raw = Ok (match getter_of (f_ty fd) with GRaw => true | GSer => false end) /\
+      fs_isinstance ftbl (fdpy cn fd) [s2p "Constant"] = Ok false.
+    Proof.
+      unfold fd_py. destruct (f_ty fd) as [l|i|i|c'|nf f|ls|id ob]; cbn [shallow_wf ftf_py]; intro Hw.
+      - destruct (leaf_facts_fast l Hw) as (H1 & H2 & H3 & H4 & _). unfold leaf_py. cbn [with_attrs].
+        rewrite !fsinst_struct, H1, H2, H3, H4. split; reflexivity.
+      - cbn [with_attrs]. rewrite !fsinst_struct. split; vm_compute; reflexivity.
+      - cbn [with_attrs]. rewrite !fsinst_struct. split; vm_compute; reflexivity.
+      - cbn [with_attrs]. rewrite !fsinst_struct. split; vm_compute; reflexivity.
+      - unfold anyof_py. cbn [with_attrs]. rewrite !fsinst_struct. split; vm_compute; reflexivity.
+      - unfold anyof_py. cbn [with_attrs]. rewrite !fsinst_struct. split; vm_compute; reflexivity.
+      - destruct (other_ok_split _ _ Hw) as (c0 & attrs & E & Hk & Hp & H3 & H4 & _).
+        rewrite E. cbn [with_attrs getter_of]. rewrite !fsinst_struct, Hp, Hk, H3, H4. split; reflexivity.
+    Qed.
+
+    Lemma setitem_fresh acc key v :
+      str_in key (map fst acc) = false ->
+      PyOpsSchema.py_dict_setitem (PDict (kv_py acc)) (PStr key) v = Ok (PDict (kv_py (acc ++ [(key, v)]))).
+    Proof.
+      intro H. unfold PyOpsSchema.py_dict_setitem. cbn [py_hashable']. rewrite dict_set_kv, (alist_set_fresh acc key v H).
+      reflexivity.
+    Qed.
+
+    Lemma field_case (cs : pystr -> res unit) (fd : tfd) :
+      (match f_ty fd with
+       | TLeaf (LPrim FNone) => check_field cs (f_ty fd)
+       | TLeaf (LPrim _) | TLeaf (LSer _ true) => Ok tt
+       | tf0 => check_field cs tf0
+       end) = match getter_of (f_ty fd) with GRaw => Ok tt | GSer => check_field cs (f_ty fd) end.
+    Proof.
+      destruct (f_ty fd) as [[f|cls ms byv|vals|id [|]]|i|i|c|nf f|ls|id o]; try reflexivity. destruct f; reflexivity.
+    Qed.
+
+    Notation loop := (src_create_serializer_loop1 rec).
+
+    Lemma loop_eq d cn c k :
+      find_tclass e cn = Some c ->
+      forall fs acc h,
+        heap_inv h ->
+        (forall fd, In fd fs -> tf_fits d (f_ty fd) = true /\ str_in (f_name fd) (map f_name (t_fields c)) = true) ->
+        nodupb (map fst acc ++ map (fun fd => own_key (t_mapper c) (f_name fd)) fs) = true ->
+        check_fields (cs_model n) (t_mapper c) fs <> Raise Unmodelled ->
+        check_fields (cs_model n) (t_mapper c) fs <> Raise OutOfFuel ->
+        match check_fields (cs_model n) (t_mapper c) fs with
+        | Ok _ => exists h1, heap_inv h1 /\
+                    loop d call xt (ref cn) (agg_py agg_chain c) k
+                         (map (fun fd => (PStr (f_name fd), fdpy cn fd)) fs) h (PDict (kv_py acc)) =
+                    k h1 (PDict (kv_py (acc ++ getters other_obj cn (t_mapper c) fs)))
+        | Raise x => loop d call xt (ref cn) (agg_py agg_chain c) k
+                          (map (fun fd => (PStr (f_name fd), fdpy cn fd)) fs) h (PDict (kv_py acc)) = Raise x
+        end.
+    Proof.
+      intro Hf. induction fs as [|fd t IH]; intros acc h Hi Hfs Hnd Hu Ho.
+      - exists h. split; [exact Hi|]. cbn [map getters src_create_serializer_loop1]. rewrite app_nil_r. reflexivity.
+      - destruct (Hfs fd (or_introl eq_refl)) as [Hfit Hname].
+        pose proof (fits_shallow _ _ Hfit) as Hw.
+        cbn [check_fields] in Hu, Ho |- *. rewrite field_case in Hu, Ho |- *.
+        cbn [map src_create_serializer_loop1].
+        (* the mapped key *)
+        assert (Hml : t_mapper c <> MapList).
+        { intro E. apply Hu. rewrite E. reflexivity. }
+        assert (Hagg : py_subscript (agg_py agg_chain c) (PStr (f_name fd)) = Ok (key_py (t_mapper c) (f_name fd))).
+        { unfold agg_py. destruct (t_mapper c) eqn:Em; try (contradiction Hml; reflexivity);
+            cbn [py_subscript]; unfold py_dict_getitem; cbn [py_hashable'];
+            rewrite (agg_lookup (key_py _) (t_fields c) (f_name fd) Hname); reflexivity. }
+        rewrite Hagg. cbn [bind].
+        assert (Hkey : forall kx, mapped_as_str (t_mapper c) (f_name fd) = Ok kx ->
+                                  key_py (t_mapper c) (f_name fd) = PStr (own_key (t_mapper c) (f_name fd))).
+        { intros kx. unfold mapped_as_str, key_py. destruct (t_mapper c) as [| | |kv|]; try reflexivity.
+          destruct (alist_get kv (f_name fd)) as [[s0| |]|]; try reflexivity; discriminate. }
+        destruct (mapped_as_str (t_mapper c) (f_name fd)) as [[]|x] eqn:Emap; cbn [bind] in Hu, Ho |- *.
+        + rewrite (Hkey tt eq_refl). cbn [py_class_is bind].
+          destruct (raw_test cn fd Hw) as [Hraw Hconst].
+          change [s2p "Number"; s2p "String"; s2p "Boolean"] with k_raw. rewrite Hraw.
+          cbn [map] in Hnd. 
+          assert (Hfresh : str_in (own_key (t_mapper c) (f_name fd)) (map fst acc) = false).
+          { rewrite nodupb_app in Hnd. apply andb_true_iff in Hnd as [_ Hnd].
+            clear - Hnd. induction (map fst acc) as [|k0 l IHl]; [reflexivity|].
+            cbn [forallb] in Hnd. apply andb_true_iff in Hnd as [H1 H2]. unfold str_in in *. cbn [existsb] in H1 |- *.
+            apply negb_true_iff in H1. apply orb_false_iff in H1 as [H1 _]. rewrite pystr_eqb_sym, H1. exact (IHl H2). }
+          assert (Hnd' : nodupb (map fst (acc ++ [(own_key (t_mapper c) (f_name fd), getter cn fd)]) ++
+                                 map (fun fd0 => own_key (t_mapper c) (f_name fd0)) t) = true).
+          { rewrite map_app, <- app_assoc. exact Hnd. }
+          assert (Hfs' : forall fd0, In fd0 t -> tf_fits d (f_ty fd0) = true /\ str_in (f_name fd0) (map f_name (t_fields c)) = true).
+          { intros fd0 Hin. apply Hfs. right. exact Hin. }
+          destruct (getter_of (f_ty fd)) eqn:Hg; cbn [bind] in Hu, Ho |- *.
+          * (* a raw getter *)
+            assert (Hgv : src_get_value call xt h (fdpy cn fd) (ref cn) = Ok (getter cn fd)).
+            { unfold getter_py. rewrite Hg. reflexivity. }
+            rewrite Hgv. cbn [bind]. rewrite (setitem_fresh acc _ (getter cn fd) Hfresh). cbn [bind].
+            specialize (IH _ h Hi Hfs' Hnd' Hu Ho).
+            destruct (check_fields (cs_model n) (t_mapper c) t) as [u|x].
+            -- destruct IH as (h1 & Hi1 & IH). exists h1. split; [exact Hi1|]. rewrite IH.
+               unfold getters. cbn [map]. rewrite <- app_assoc. reflexivity.
+            -- exact IH.
+          * (* a serializing getter *)
+            rewrite Hconst. cbn [bind].
+            assert (Hu1 : check_field (cs_model n) (f_ty fd) <> Raise Unmodelled).
+            { intro E. apply Hu. rewrite E. reflexivity. }
+            assert (Ho1 : check_field (cs_model n) (f_ty fd) <> Raise OutOfFuel).
+            { intro E. apply Ho. rewrite E. reflexivity. }
+            pose proof (get_serialize_eq cn fd d h Hi Hfit Hg Hu1 Ho1) as Hgs. unfold agrees_v in Hgs.
+            destruct (check_field (cs_model n) (f_ty fd)) as [[]|x]; cbn [bind] in Hu, Ho |- *.
+            -- destruct Hgs as (h1 & Hi1 & Hgs). rewrite Hgs. cbn [bind].
+               rewrite (setitem_fresh acc _ (getter cn fd) Hfresh). cbn [bind].
+               specialize (IH _ h1 Hi1 Hfs' Hnd' Hu Ho).
+               destruct (check_fields (cs_model n) (t_mapper c) t) as [u|x].
+               ++ destruct IH as (h2 & Hi2 & IH). exists h2. split; [exact Hi2|]. rewrite IH.
+                  unfold getters. cbn [map]. rewrite <- app_assoc. reflexivity.
+               ++ exact IH.
+            -- rewrite Hgs. reflexivity.
+        + (* the mapped key is not a string: a FunctionCall is refused (anything else is outside the model) *)
+          unfold mapped_as_str in Emap. unfold key_py.
+          destruct (t_mapper c) as [| | |kv|]; try discriminate Emap; [|contradiction Hml; reflexivity].
+          destruct (alist_get kv (f_name fd)) as [[s0| |]|]; try discriminate Emap; inversion Emap; subst.
+          * reflexivity.
+          * contradiction Hu; reflexivity.
+    Qed.
+  
+    (* ---------------------------------------------------------------- around the loop *)
+
+    Lemma fields_base h cn c :
+      heap_base h -> find_tclass e cn = Some c ->
+      py_call_method h call xt (ref cn) (s2p "get_all_fields_by_name") [] = Ok (ffields_py other_obj cn (t_fields c)).
+    Proof.
+      intros Hb Hf. unfold py_call_method, ref. rewrite pystr_eqb_refl.
+      rewrite (proj2 (lookup_plain h cn c (s2p "get_all_fields_by_name") Hb Hf eq_refl eq_refl eq_refl)),
+        (heap0_env Henv cn c _ Hf).
+      change (pystr_eqb (s2p "get_all_fields_by_name") a_fields) with false.
+      change (pystr_eqb (s2p "get_all_fields_by_name") mro_attr) with false.
+      change (pystr_eqb (s2p "get_all_fields_by_name") (s2p "__name__")) with false. cbn iota.
+      change (call_attr (s2p "get_all_fields_by_name")) with a_fields.
+      rewrite (proj2 (lookup_plain h cn c a_fields Hb Hf eq_refl eq_refl eq_refl)), (heap0_env Henv cn c _ Hf).
+      rewrite pystr_eqb_refl. reflexivity.
+    Qed.
+
+    Lemma undefined_base h cn c :
+      heap_base h -> find_tclass e cn = Some c ->
+      fs_getattr_def h (ref cn) (s2p "_enable_undefined_value") (PBool false) = Ok (PBool false).
+    Proof.
+      intros Hb Hf. unfold fs_getattr_def, ref. rewrite pystr_eqb_refl.
+      rewrite (proj2 (lookup_plain h cn c (s2p "_enable_undefined_value") Hb Hf eq_refl eq_refl eq_refl)),
+        (heap0_env Henv cn c _ Hf). reflexivity.
+    Qed.
+
+    Lemma additional_base h cn c :
+      heap_base h -> find_tclass e cn = Some c ->
+      fs_hasattr h (ref cn) (s2p "_additional_serialization") = Ok true.
+    Proof.
+      intros Hb Hf. unfold fs_hasattr, ref. rewrite pystr_eqb_refl.
+      destruct (lookup_plain h cn c mro_attr Hb Hf eq_refl eq_refl eq_refl) as [Hm _].
+      unfold cls_lookup. rewrite Hm. cbn [app mro_find].
+      rewrite (proj1 Hb cn (s2p "_additional_serialization") eq_refl eq_refl), (heap0_env Henv cn c _ Hf).
+      change (pystr_eqb (s2p "_additional_serialization") a_fields) with false.
+      change (pystr_eqb (s2p "_additional_serialization") mro_attr) with false.
+      change (pystr_eqb (s2p "_additional_serialization") (s2p "__name__")) with false. cbn iota.
+      rewrite (proj1 Hb ST (s2p "_additional_serialization") eq_refl eq_refl). reflexivity.
+    Qed.
+
+    Lemma agg_ext cn c : find_tclass e cn = Some c ->
+      x_fn xt (s2p "aggregate_serialization_mappers") [ref cn] = Ok (agg_py agg_chain c).
+    Proof.
+      intro Hf. cbn [x_fn fast_ext]. unfold ext_fn, ref. rewrite !pystr_eqb_refl. rewrite Hf. reflexivity.
+    Qed.
+
+    (* reading back the serializer that was just stored (set_compact_wrapper) *)
+    Lemma read_back h cn c v :
+      heap_base h -> find_tclass e cn = Some c ->
+      fs_getattr (heap_set h cn a_serialize v) (ref cn) a_serialize = Ok v.
+    Proof.
+      intros Hb Hf. destruct (lookup_plain h cn c mro_attr Hb Hf eq_refl eq_refl eq_refl) as [Hm _].
+      unfold fs_getattr, ref. rewrite pystr_eqb_refl. unfold cls_lookup.
+      assert (E : cls_mro (heap_set h cn a_serialize v) cn = cls_mro h cn).
+      { unfold cls_mro. rewrite heap_set_other_attr; reflexivity. }
+      rewrite E, Hm. cbn [app mro_find]. rewrite heap_set_same. reflexivity.
+    Qed.
+
+    (* the heap create_serializer(cls) (default flags) leaves is again a heap on the way *)
+    Lemma final_inv h1 c' cd k :
+      heap_inv h1 -> find_tclass e c' = Some cd -> t_fast cd = true -> create_serializer e k c' = Ok tt ->
+      heap_inv (final_heap other_obj h1 c' cd (PBool false) false).
+    Proof.
+      intros [[Hb1 Hb2] Hs] Hf Hfast Hk. unfold final_heap. split; [split|].
+      - intros o a H1 H2. rewrite heap_set_other_attr by exact H2. rewrite heap_set_other_attr by exact H1.
+        exact (Hb1 o a H1 H2).
+      - intros o a Ho. assert (E : pystr_eqb o c' = false).
+        { destruct (pystr_eqb o c') eqn:E; [|reflexivity]. apply pystr_eqb_spec in E. subst. congruence. }
+        rewrite !heap_set_other_obj by exact E. exact (Hb2 o a Ho).
+      - intros cn2 c2 Hf2. destruct (pystr_eqb cn2 c') eqn:E.
+        + apply pystr_eqb_spec in E. subst cn2. assert (c2 = cd) by congruence. subst c2. right.
+          rewrite heap_set_other_attr by reflexivity. rewrite heap_set_same. split; [reflexivity|].
+          split; [exact Hfast|]. exists k. exact Hk.
+        + rewrite !heap_set_other_obj by exact E. exact (Hs cn2 c2 Hf2).
+    Qed.
+  End Create.
+
+  Definition fits_env (d : nat) : bool :=
+    forallb (fun c => forallb (fun fd => tf_fits d (f_ty fd)) (t_fields c)) e.
+
+  Lemma fits_env_find d cn c :
+    fits_env d = true -> find_tclass e cn = Some c -> forall fd, In fd (t_fields c) -> tf_fits d (f_ty fd) = true.
+  Proof.
+    unfold fits_env. intros H Hf. induction e as [|c0 t IH]; [discriminate Hf|].
+    cbn [forallb] in H. apply andb_true_iff in H as [H0 Ht]. cbn [find_tclass] in Hf.
+    destruct (pystr_eqb (t_name c0) cn).
+    - inversion Hf; subst. rewrite forallb_forall in H0. exact H0.
+    - exact (IH Ht Hf).
+  Qed.
+
+  (* ---------------------------------------------------------------- create_serializer *)
+
+  (* create_serializer(cls, compact, serialize_none) against the model: the same exception class (TypeError for a
+     OneOf / a multi-type AnyOf / a class reference without the mix-in, ValueError for a FunctionCall mapper), and
+     on success the heap [final_heap h1 ...]: h1 is the heap in which the serializers of the referenced classes
+     have been created, the class now holds the serializer [installed cn c sn compact] -- per field the getter
+     [getter_py] under the mapped key -- and _created_fast_serializer = True *)
+  Theorem src_create_eq : forall fuel d call h cn c (compact sn : bool),
+      env_ok = true -> fits_env d = true -> heap_inv h -> find_tclass e cn = Some c ->
+      create_serializer e fuel cn <> Raise Unmodelled -> create_serializer e fuel cn <> Raise OutOfFuel ->
+      match create_serializer e fuel cn with
+      | Ok _ => exists h1, heap_inv h1 /\
+                  src_create_serializer fuel d call xt h (ref cn) (PBool compact) (PBool sn) PNone =
+                  Ok (final_heap other_obj h1 cn c (PBool sn) compact, PNone)
+      | Raise x => src_create_serializer fuel d call xt h (ref cn) (PBool compact) (PBool sn) PNone = Raise x
+      end.
+  Proof.
+    intros fuel d call h cn c compact sn Henv Hfit. revert h cn c compact sn.
+    induction fuel as [|n IH]; intros h cn c compact sn Hi Hf Hu Ho; [contradiction Ho; reflexivity|].
+    rewrite create_S, Hf in Hu, Ho |- *.
+    pose proof (proj1 Hi) as Hb.
+    cbn [src_create_serializer].
+    cbn [py_or_val bind py_truthy]. rewrite (agg_ext cn c Hf). cbn [bind].
+    rewrite (fields_base Henv call h cn c Hb Hf). cbn [bind]. unfold ffields_py. cbn [py_dict_items bind].
+    assert (Hrec : forall h0 c' cd,
+               heap_inv h0 -> find_tclass e c' = Some cd -> t_fast cd = true -> h0 c' a_serialize = None ->
+               create_serializer e n c' <> Raise Unmodelled -> create_serializer e n c' <> Raise OutOfFuel ->
+               agrees (create_serializer e n c')
+                      (src_create_serializer n d call xt h0 (ref c') (PBool false) (PBool false) PNone)).
+    { intros h0 c' cd Hi0 Hf0 Hfast0 _ Hu0 Ho0. specialize (IH h0 c' cd false false Hi0 Hf0 Hu0 Ho0).
+      unfold agrees. destruct (create_serializer e n c') as [[]|x] eqn:Ec; [|exact IH].
+      destruct IH as (h1 & Hi1 & IH). exists (final_heap other_obj h1 c' cd (PBool false) false).
+      split; [exact (final_inv h1 c' cd n Hi1 Hf0 Hfast0 Ec)|exact IH]. }
+    destruct (env_ok_find cn c Henv Hf) as (_ & Hok & _).
+    unfold class_ok in Hok. apply andb_true_iff in Hok as [Hok Hkeys]. apply andb_true_iff in Hok as [_ Hnames].
+    match goal with |- context [src_create_serializer_loop1 _ _ _ _ _ _ ?K] => set (k := K) end.
+    pose proof (loop_eq Henv n (src_create_serializer n d call xt) call Hrec d cn c k Hf (t_fields c) [] h Hi) as HL.
+    change (PDict []) with (PDict (kv_py [])).
+    assert (Hfs : forall fd, In fd (t_fields c) ->
+                             tf_fits d (f_ty fd) = true /\ str_in (f_name fd) (map f_name (t_fields c)) = true).
+    { intros fd Hin. split; [exact (fits_env_find d cn c Hfit Hf fd Hin)|].
+      apply str_in_In. apply in_map. exact Hin. }
+    specialize (HL Hfs Hkeys Hu Ho).
+    destruct (check_fields (cs_model n) (t_mapper c) (t_fields c)) as [[]|x]; [|exact HL].
+    destruct HL as (h1 & Hi1 & HL). exists h1. split; [exact Hi1|]. rewrite HL. subst k. cbv beta.
+    pose proof (proj1 Hi1) as Hb1. cbn [app].
+    unfold py_dict_items_val. cbn [py_dict_items bind].
+    rewrite (undefined_base Henv h1 cn c Hb1 Hf). cbn [bind].
+    rewrite (additional_base Henv h1 cn c Hb1 Hf). cbn [bind].
+    fold (items_val (getters other_obj cn (t_mapper c) (t_fields c))).
+    fold (serc cn c (PBool sn)).
+    unfold fs_setattr at 1. unfold ref at 1. unfold ref_name. rewrite pystr_eqb_refl. cbn [bind py_truthy].
+    change (s2p "serialize") with a_serialize. change (s2p "_created_fast_serializer") with a_created.
+    unfold final_heap. destruct compact; cbn iota.
+    - unfold src_set_compact_wrapper. change (s2p "serialize") with a_serialize.
+      rewrite (read_back Henv h1 cn c _ Hb1 Hf). cbn [bind].
+      fold (compact_closure (serc cn c (PBool sn))).
+      unfold fs_setattr, ref, ref_name. rewrite pystr_eqb_refl. cbn [bind]. reflexivity.
+    - unfold fs_setattr, ref, ref_name. rewrite pystr_eqb_refl. cbn [bind]. reflexivity.
+  Qed.
+
+  (* ---------------------------------------------------------------- from the heap in which nothing is created yet *)
+
+  Lemma heap0_inv : env_ok = true -> heap_inv heap0.
+  Proof.
+    intro Henv. split; [split; intros; reflexivity|]. intros cn c Hf. left.
+    destruct (env_cls_not_special Henv cn c Hf) as [H1 H2].
+    unfold fast_heap0. rewrite H1, H2, Hf. reflexivity.
+  Qed.
+
+  Corollary src_create_fresh : forall fuel d call cn c (compact sn : bool),
+      env_ok = true -> fits_env d = true -> find_tclass e cn = Some c ->
+      create_serializer e fuel cn <> Raise Unmodelled -> create_serializer e fuel cn <> Raise OutOfFuel ->
+      match create_serializer e fuel cn with
+      | Ok _ => exists h1, heap_inv h1 /\
+                  src_create_serializer fuel d call xt heap0 (ref cn) (PBool compact) (PBool sn) PNone =
+                  Ok (final_heap other_obj h1 cn c (PBool sn) compact, PNone)
+      | Raise x => src_create_serializer fuel d call xt heap0 (ref cn) (PBool compact) (PBool sn) PNone = Raise x
+      end.
+  Proof.
+    intros fuel d call cn c compact sn Henv Hfit Hf. exact (src_create_eq fuel d call heap0 cn c compact sn Henv Hfit (heap0_inv Henv) Hf).
+  Qed.
+
+  (* what the class holds afterwards *)
+  Lemma final_heap_cells h1 cn c sn compact :
+    final_heap other_obj h1 cn c sn compact cn a_serialize = Some (installed other_obj cn c sn compact) /\
+    final_heap other_obj h1 cn c sn compact cn a_created = Some (PBool true) /\
+    (forall o a, pystr_eqb o cn = false -> final_heap other_obj h1 cn c sn compact o a = h1 o a) /\
+    (forall a, pystr_eqb a a_serialize = false -> pystr_eqb a a_created = false ->
+               final_heap other_obj h1 cn c sn compact cn a = h1 cn a).
+  Proof.
+    unfold final_heap, installed. repeat split.
+    - rewrite heap_set_other_attr by reflexivity. destruct compact; rewrite heap_set_same; reflexivity.
+    - apply heap_set_same.
+    - intros o a E. destruct compact; rewrite !heap_set_other_obj by exact E; reflexivity.
+    - intros a E1 E2. destruct compact; rewrite heap_set_other_attr by exact E2; rewrite !heap_set_other_attr by exact E1; reflexivity.
+  Qed.
+
+  (* ---------------------------------------------------------------- FastSerializable.__init__: the lazy installation *)
+
+  Lemma has_own_ref h cn a : fs_has_own h (ref cn) a = Ok (match h cn a with Some _ => true | None => false end).
+  Proof. unfold fs_has_own, ref. rewrite pystr_eqb_refl. reflexivity. Qed.
+
+  Lemma getattr_ref h cn a :
+    fs_getattr h (ref cn) a = match cls_lookup h cn a with Some v => Ok v | None => Raise AttributeError end.
+  Proof. unfold fs_getattr, ref. rewrite pystr_eqb_refl. reflexivity. Qed.
+
+  Lemma super_init_ext call self l : py_super_call call xt self (s2p "FastSerializable") (s2p "__init__") l = Ok PNone.
+  Proof. reflexivity. Qed.
+
+  Theorem src_init_eq : forall fuel d call h cn c a args kwargs,
+      env_ok = true -> fits_env d = true -> heap_inv h -> find_tclass e cn = Some c ->
+      (h cn a_serialize = None -> create_serializer e fuel cn <> Raise Unmodelled /\ create_serializer e fuel cn <> Raise OutOfFuel) ->
+      match h cn a_serialize with
+      | Some _ => src_FastSerializable__init fuel d call xt h (PStruct cn a) args kwargs = Ok (h, PNone)
+      | None =>
+          match create_serializer e fuel cn with
+          | Ok _ => exists h1, heap_inv h1 /\
+                      src_FastSerializable__init fuel d call xt h (PStruct cn a) args kwargs =
+                      Ok (final_heap other_obj h1 cn c (PBool false) false, PNone)
+          | Raise x => src_FastSerializable__init fuel d call xt h (PStruct cn a) args kwargs = Raise x
+          end
+      end.
+  Proof.
+    intros fuel d call h cn c a args kwargs Henv Hfit Hi Hf Hm. pose proof (proj1 Hi) as Hb.
+    unfold src_FastSerializable__init. cbn [fld_class_of bind].
+    change (s2p "serialize") with a_serialize. change (s2p "FastSerializable") with FS.
+    rewrite has_own_ref.
+    destruct (proj2 Hi cn c Hf) as [Hnone|(Hsome & _ & _)].
+    - rewrite Hnone. cbn [py_not py_or bind negb]. destruct (Hm Hnone) as [Hu Ho].
+      pose proof (src_create_eq fuel d call h cn c false false Henv Hfit Hi Hf Hu Ho) as HC.
+      destruct (create_serializer e fuel cn) as [[]|x].
+      + destruct HC as (h1 & Hi1 & HC). exists h1. split; [exact Hi1|]. rewrite HC. cbn [bind].
+        rewrite super_init_ext. reflexivity.
+      + rewrite HC. reflexivity.
+    - rewrite Hsome. cbn [py_not py_or bind negb].
+      rewrite (getattr_ref h cn a_serialize).
+      rewrite (lookup_serialize Henv h cn c Hb Hf), Hsome, (fs_ser Henv h Hb). cbn [bind].
+      rewrite is_installed_not_fs. cbn [bind]. rewrite super_init_ext. reflexivity.
+  Qed.
+
+  (* FastSerializable.serialize itself: the class asks for a serializer *)
+  Theorem src_fs_serialize_eq : forall call h cn c a,
+      env_ok = true -> heap_base h -> find_tclass e cn = Some c ->
+      src_FastSerializable__serialize call xt h (PStruct cn a) = Raise NotImplementedError.
+  Proof.
+    intros call h cn c a Henv Hb Hf. unfold src_FastSerializable__serialize. cbn [fld_class_of bind].
+    rewrite getattr_ref.
+    rewrite (proj2 (lookup_plain Henv h cn c (s2p "__name__") Hb Hf eq_refl eq_refl eq_refl)), (heap0_env Henv cn c _ Hf).
+    reflexivity.
+  Qed.
+End Bridge.
